@@ -198,6 +198,9 @@ func cmdCheck(args []string) int {
 		if len(again) == 0 || (attempt == 2 && *tier != "thorough") {
 			break
 		}
+		if len(again) > 8 && *tier != "thorough" {
+			break // many undecided obligations are a broken proof, not solver jitter: do not spend minutes re-trying
+		}
 		o2 := opts
 		o2.Timeout = opts.Timeout * 3
 		o2.Parallel = 3
@@ -289,6 +292,14 @@ func cmdCheck(args []string) int {
 	if internal > 0 {
 		return 2
 	}
+	// bounded companions of the proof (never counted as discharged obligations)
+	conf, confFails := runConformance(prop, scratch)
+	for pkg, text := range confFails {
+		violations++
+		rp := writeConformanceReplay(replayDir, prop, pkg, text)
+		lines = append(lines, fmt.Sprintf("VIOLATION property=%s replay=%s", prop, rp))
+		fmt.Fprintf(os.Stderr, "  bounded test failed on the real code: %s\n", pkg)
+	}
 	for _, l := range lines {
 		fmt.Println(l)
 	}
@@ -329,6 +340,7 @@ func cmdCheck(args []string) int {
 			"solver_time_s":            round3(solverTime),
 			"functions_under_contract": orEmpty(fns),
 			"functions_outside_subset": orEmpty(outs),
+			"bounded_companions":       confOrEmpty(conf),
 			"integers":                 "mathematical Int with explicit no-overflow obligations at arithmetic sites (A1)",
 			"explanation":              "VCs generated from go/ssa of /repo's working tree (tags: verif); each obligation is facts ⊢ cond ⇒ goal, discharged iff some solver answers unsat and none answers sat",
 		},
@@ -676,4 +688,11 @@ func orEmpty(xs []string) []string {
 		return []string{}
 	}
 	return xs
+}
+
+func confOrEmpty(c []confResult) []confResult {
+	if c == nil {
+		return []confResult{}
+	}
+	return c
 }
